@@ -24,6 +24,7 @@ RULE = ("typed Bool-rooted filters over the SQLAlchemy-supported scalar fragment
         "non-trivial = selects at least one judged row and rejects at least one")
 RULE += (" " + 'Added lanes (each per entry style): machine numbers incl. integer groups under float arithmetic; long in-lists; same-field chains; fixed-point column (Numeric(5,2)).')
 RULE += (" " + 'Round-10 lanes: numeric-spelling twins, grouping grid, bracket-string groups (as in C01), per entry style.')
+RULE += (" " + 'Rounds 13-14: NULLable column of five kinds x eq / ne both orders, in, null tests, in-lists holding a null literal x 7 negation wrappers x every entry style.')
 ASSUMPTIONS = ["SQLAlchemy 2.0 on in-memory SQLite; strpos/concat registered as UDFs with "
                "PostgreSQL semantics; column f NOT NULL (SQLAlchemy's own SQLite floor UDF "
                "raises on NULL)",
